@@ -162,7 +162,7 @@ func ruleR6() *Rule {
 	return &Rule{
 		ID:    "R6",
 		Title: "EXIT-DISCIPLINE: cleanup before failure, completion before success",
-		Props: []string{"C17", "C18", "C19", "C20", "C16"},
+		Props: []string{"C17", "C18", "C19", "C20", "C16", "C04"},
 		Floor: floorFor("R6"),
 		Run: func(c *RuleCtx) {
 			r6FileProducers(c)
@@ -552,7 +552,7 @@ func exitWitness(c *RuleCtx, ret *ssa.Return, v ssa.Value) []string {
 // --- R6b: the writer routine shared by Persist and WriteTo ------------------
 
 func r6ToWriter(c *RuleCtx) {
-	props := []string{"C17"}
+	props := []string{"C17", "C04"}
 	fn := c.fn("persistSegmentBaseToWriter")
 	if fn == nil {
 		return
